@@ -3,6 +3,7 @@
 package main
 
 import (
+	"strings"
 	"encoding/json"
 	"fmt"
 	"reflect"
@@ -241,7 +242,7 @@ func orUnknown(s string) string {
 }
 
 func checkC19(c *ev.Ctx) {
-	c.Rule("complete product: 4 flags x touchPolicy{-1,0,1,2,3,4,7} x usage{0,1} x ver{0,1,2} x critical option{absent,nil map,empty,set,other keys} x principal lists{nil,[],[a],[a,b],['']} x transID{'',hex,utf8}, plus undecodable KeyID catalogue, the nil certificate, and KeyIDs with one or two null-valued members (36 null sets x 7 bases) each classified right after each of 8 predecessors; each compared with a decision table written from the statement. non-trivial = decodable KeyID selecting a known type; distinct by (flags,touch,critical option)")
+	c.Rule("complete product: 4 flags x touchPolicy{-1,0,1,2,3,4,7} x usage{0,1} x ver{0,1,2} x critical option{absent,nil map,empty,set,other keys} x principal lists{nil,[],[a],[a,b],['']} x transID{'',hex,utf8}, plus undecodable KeyID catalogue (incl. every required member absent while another one is repeated), the nil certificate, and KeyIDs with one or two null-valued members (36 null sets x 7 bases) each classified right after each of 8 predecessors; each compared with a decision table written from the statement. non-trivial = decodable KeyID selecting a known type; distinct by (flags,touch,critical option)")
 	c.Assume("KeyID texts are built by the harness with encoding/json from a map, so 'decodes' is known by construction", "cert types are compared through their public label table")
 	if c.ReplayCase != nil {
 		var k c19Case
@@ -285,6 +286,32 @@ func checkC19(c *ev.Ctx) {
 		`{"prins":["a"],"transID":"t","reqUser":"u","reqIP":"i","reqHost":"h","isFirefighter":false,"isHWKey":false,"isHeadless":false,"isNonce":false,"touchpolicy":1,"ver":1}`,
 		`{"prins":["a"],"transID":"t","reqUser":"u","reqIP":"i","reqHost":"h","isFirefighter":false,"isHWKey":false,"isHeadless":false,"isNonce":false,"touchPolicy":1,"ver":1`,
 		"\xff\xfe", `{"prins":"a","ver":1}`}
+	// a required member absent while other required members are repeated (legal JSON; the count of required names is then
+	// right although one name is missing): for every absent member x every repeated member, with a touch policy that would
+	// select a rule
+	{
+		members := []string{"prins", "transID", "reqUser", "reqIP", "reqHost", "isFirefighter", "isHWKey", "isHeadless", "isNonce", "touchPolicy"}
+		val := map[string]string{"prins": `["alice"]`, "transID": `"t1"`, "reqUser": `"u"`, "reqIP": `"1.2.3.4"`, "reqHost": `"h"`, "isFirefighter": "false", "isHWKey": "true",
+			"isHeadless": "false", "isNonce": "false", "touchPolicy": "1", "ver": "1", "usage": "0"}
+		for _, absent := range members {
+			for _, rep := range members {
+				if rep == absent {
+					continue
+				}
+				var parts []string
+				for _, m := range append(append([]string{}, members...), "usage", "ver") {
+					if m == absent {
+						continue
+					}
+					parts = append(parts, fmt.Sprintf("%q:%s", m, val[m]))
+					if m == rep {
+						parts = append(parts, fmt.Sprintf("%q:%s", m, val[m]))
+					}
+				}
+				raws = append(raws, "{"+strings.Join(parts, ",")+"}")
+			}
+		}
+	}
 	for i := range raws {
 		for _, crit := range []string{"absent", "set"} {
 			k := c19Case{Raw: &raws[i], Crit: crit, Prins: []string{"a"}}
